@@ -13,6 +13,9 @@ import Rdm.Lemmas.BiasBRat
 import Rdm.Lemmas.BiasBWeight
 import Rdm.Lemmas.BiasBParams
 import Rdm.Spec.C18
+import Rdm.Lemmas.E2EBiasesState
+import Rdm.Lemmas.E2EBiasesParts
+import Rdm.Lemmas.E2EBiasesExample
 import Mathlib.Tactic.NormNum
 namespace Rdm.Props.C18
 open Rdm
@@ -346,5 +349,515 @@ theorem facts_fresh : (Rdm.Facts.staleFacts.all fun n => !["concealedBaseName", 
     "defaultConcealmentScaling", "defaultBoundingScaling", "refImportanceRatio", "refRandomUniform",
     "refRandomWeighted", "wiringRefCriterionFactories", "choquetEps", "roundPrecision"].contains n) = true := by
   decide
+
+/-! ## END TO END: a fired concealment / mixing inside a whole request
+
+The theorems above are about one `Apply` with two states `orig` / `cur` as free parameters.  Inside a request
+`processBiases` passes `original` = the state `prepare` built from the request (`params`) to EVERY bias and
+`current` = the state handed on by the previous fired bias (`s`).  Below, every entry of `resp.biases` that
+carries a concealment / mixing report is tied to ONE `conceal` / `mixing` call with `orig := params`, `cur := s`
+(`E2EBFired`, Lemmas/E2EBiases.lean), and the clauses are restated for the pair `(s, s')`.
+
+**Which input comes from where — exactly what the model (and the code) does:**
+* concealment reads from `params` (ORIGINAL): the ranking from which the reference criterion is picked, the
+  reference criterion's value range (over the original alternatives) — hence the new criterion's range and all
+  concealed values —, and the method parameters `OnCriterionAdded` computes the new weight from; from `s`
+  (CURRENT): the unused id, the alternatives that receive the value, the lists that are updated, the parameters the
+  addition is merged into, the criteria list that is extended (`concealment_reads_e2e`);
+* mixing reads from `params` (ORIGINAL): the two criteria (indices computed from the ORIGINAL number of criteria),
+  the ranking, the reference criterion, the target range, both rescaled components, and the ALTERNATIVES THE NEW
+  VALUE IS APPENDED TO; from `s` (CURRENT): only the guard (`< 2` criteria: no-op), the parameters the listener
+  is asked on and merges into, the ids of the considered / not-considered lists (whose members are replaced by
+  the alternatives built from `params`), the criteria list that is extended (`mixing_reads_e2e`).
+These are the registered findings `conceal-after-state-change-reference` and `mixing-after-state-change`: the
+clauses that speak about EXISTING criteria / values hold relative to `s` only where the source is `s`; where it
+is `params` they hold relative to `params`, and relative to `s` only when `s` agrees with `params` on that input —
+those are named `…_partial`, with the full (false in general) statement in the doc comment. -/
+
+section e2e
+variable {α : Type} [Num α] {exp : α → α} {o : List (WCrit α) → List (WCrit α)} {req : Request α}
+  {g : Int → Draws α} {resp : Response α} {params s s' : DMP α} {chosen : List (Chosen α (BProps α))} {i : Nat}
+  {name : String} {prob : α} {q : Props α}
+
+/-! ### concealment -/
+
+/-- **Every concealment entry of a response that carries a report is one `CriteriaConcealment.Apply` with
+    `original` = the request's state and `current` = the state the entry received.**  The reference criterion is
+    drawn from the stream of `newCriterionRandomSeed`, values and listener from that of `randomSeed`. -/
+theorem fired_concealment_is_one_apply {r : ConcealReport α} (h : decideWith exp o req g = .ok resp)
+    (hi : resp.biases[i]? = some ⟨name, prob, some (.conceal r)⟩) :
+    ∃ params chosen q s s',
+      E2EBFired exp g req resp params chosen i ⟨name, prob, .flat q⟩ (.conceal r) s s' ∧
+      name = Facts.biasConcealment ∧
+      conceal choquetEpsOf params s q (g (q.seed "newCriterionRandomSeed")) (g (q.seed "randomSeed")) = .ok (s', r) := by
+  obtain ⟨params, chosen, props, s, s', hf⟩ := e2eb_fired h hi
+  obtain ⟨hn, q, hp, ha⟩ := e2eb_fired_conceal hf
+  dsimp only at hn hp
+  subst hp
+  exact ⟨params, chosen, q, s, s', hf, hn, ha⟩
+
+theorem fired_concealment_apply {r : ConcealReport α}
+    (hf : E2EBFired exp g req resp params chosen i ⟨name, prob, .flat q⟩ (.conceal r) s s') :
+    conceal choquetEpsOf params s q (g (q.seed "newCriterionRandomSeed")) (g (q.seed "randomSeed")) = .ok (s', r) := by
+  obtain ⟨_, q', hp, ha⟩ := e2eb_fired_conceal hf
+  dsimp only at hp
+  cases hp
+  exact ha
+
+/-- **what a fired concealment reads from the request's state and what from the state it received** (the literal
+    decomposition of the model, `e2eb_conceal_sources`) -/
+theorem concealment_reads_e2e {r : ConcealReport α}
+    (hf : E2EBFired exp g req resp params chosen i ⟨name, prob, .flat q⟩ (.conceal r) s s') :
+    ∃ (ranked : List (WCrit α)) (ref : Crit α) (rg : α × α) (b : Bounding α) (alts : List (Alt α))
+      (g' g'' : Draws α),
+      -- from the REQUEST's state
+      rankAsc choquetEpsOf params = .ok ranked ∧
+      refCriterion q ranked (g (q.seed "newCriterionRandomSeed")) = .ok ref ∧
+      valuesRange params.all ref = .ok rg ∧
+      r.range = scaleEqually rg (q.num "newCriterionScaling" (Num.ofConst Facts.defaultConcealmentScaling)) ∧
+      onAdded params.mp ⟨r.id, r.type, some r.range⟩ ref g' = .ok (r.addition, g'') ∧
+      -- from the state RECEIVED
+      r.id = notUsedName (s.crit.map (·.id)) Facts.concealedBaseName ∧ r.type = Facts.critGain ∧
+      boundingOfProps q = .ok b ∧
+      assignConcealed b r.range r.id (sortAltsById s.all) (g (q.seed "randomSeed")) = .ok (alts, r.values, g') ∧
+      updateAlts s.nc alts = .ok s'.nc ∧ updateAlts s.co alts = .ok s'.co ∧
+      mergeParams s.mp r.addition = .ok s'.mp ∧
+      critsAdd s.crit ⟨r.id, r.type, some r.range⟩ = .ok s'.crit :=
+  e2eb_conceal_sources (fired_concealment_apply hf)
+
+/-- `conceal_appends_one_gain_criterion`, end to end: exactly one criterion is appended to the criteria RECEIVED;
+    it is a gain criterion with the generated name, which is the id of no criterion received -/
+theorem conceal_appends_one_gain_criterion_e2e {r : ConcealReport α}
+    (hf : E2EBFired exp g req resp params chosen i ⟨name, prob, .flat q⟩ (.conceal r) s s') :
+    (∃ c : Crit α, s'.crit = s.crit ++ [c] ∧ c.id = r.id ∧ c.type = "gain" ∧ c.range = some r.range) ∧
+    r.id = notUsedName (s.crit.map (·.id)) "__concealedCriterion__" ∧
+    ∀ x ∈ s.crit, x.id ≠ r.id :=
+  conceal_appends_one_gain_criterion (fired_concealment_apply hf)
+
+/-- `conceal_gives_every_alternative_a_value_and_keeps_the_rest`, end to end: the considered / not-considered
+    split is the one received; every alternative handed on is an alternative RECEIVED with exactly one value
+    appended — the reported one — so every value an earlier bias left is untouched; one value per known
+    alternative is reported -/
+theorem conceal_gives_every_alternative_a_value_and_keeps_the_rest_e2e {r : ConcealReport α}
+    (hf : E2EBFired exp g req resp params chosen i ⟨name, prob, .flat q⟩ (.conceal r) s s') :
+    s'.co.map (·.id) = s.co.map (·.id) ∧ s'.nc.map (·.id) = s.nc.map (·.id) ∧
+    r.values.length = (s.co ++ s.nc).length ∧
+    ∀ a' ∈ s'.co ++ s'.nc, ∃ a ∈ s.co ++ s.nc, ∃ v,
+      a'.id = a.id ∧ a'.vals = a.vals ++ [(r.id, v)] ∧ a.vals.has r.id = false ∧ (a.id, v) ∈ r.values :=
+  conceal_gives_every_alternative_a_value_and_keeps_the_rest (fired_concealment_apply hf)
+
+/-- the reference criterion of a fired concealment is a criterion of the REQUEST (it is picked from the ranking
+    of the request's state), whatever the earlier biases did to the criteria -/
+theorem conceal_reference_criterion_is_a_request_criterion {r : ConcealReport α}
+    (hf : E2EBFired exp g req resp params chosen i ⟨name, prob, .flat q⟩ (.conceal r) s s') :
+    ∃ ranked ref, rankAsc choquetEpsOf params = .ok ranked ∧
+      refCriterion q ranked (g (q.seed "newCriterionRandomSeed")) = .ok ref ∧ ref ∈ params.crit := by
+  obtain ⟨ranked, ref, _, _, _, _, _, hrank, href, _⟩ := concealment_reads_e2e hf
+  exact ⟨ranked, ref, hrank, href,
+    (BiasA.rankAsc_perm hrank).subset (reference_criterion_is_an_existing_criterion href)⟩
+
+/-- PARTIAL.  Full statement (the property's "the reference criterion is always one of the existing criteria",
+    for a concealment at any position): `ref ∈ s.crit`.  That is FALSE in general — the reference criterion is
+    picked among the REQUEST's criteria, so after an omission it may be a criterion that no longer exists
+    (registered finding `conceal-after-state-change-reference`).  Proved: it holds when the criteria received are
+    still the request's (in particular for the first state-changing bias, `s = params`). -/
+theorem conceal_reference_criterion_is_an_existing_criterion_partial {r : ConcealReport α}
+    (hf : E2EBFired exp g req resp params chosen i ⟨name, prob, .flat q⟩ (.conceal r) s s')
+    (hsame : s.crit = params.crit) :
+    ∃ ranked ref, rankAsc choquetEpsOf params = .ok ranked ∧
+      refCriterion q ranked (g (q.seed "newCriterionRandomSeed")) = .ok ref ∧ ref ∈ s.crit := by
+  obtain ⟨ranked, ref, h1, h2, h3⟩ := conceal_reference_criterion_is_a_request_criterion hf
+  exact ⟨ranked, ref, h1, h2, hsame ▸ h3⟩
+
+/-- PARTIAL.  Full statement (the property's "concealed values lie in the reference criterion's value range
+    scaled …", for a concealment at any position): the reported range is the reference criterion's range over the
+    alternatives RECEIVED, scaled.  FALSE in general — the range is taken over the request's alternatives, so value
+    changes of earlier biases (fatigue, reversal, anchoring) are ignored (same registered finding; what holds in
+    general is `concealment_reads_e2e`).  Proved: it holds when the entry received the request's state. -/
+theorem concealed_range_is_the_scaled_reference_range_partial {r : ConcealReport α}
+    (hf : E2EBFired exp g req resp params chosen i ⟨name, prob, .flat q⟩ (.conceal r) s s')
+    (hfirst : s = params) :
+    ∃ ranked ref rg, rankAsc choquetEpsOf s = .ok ranked ∧
+      refCriterion q ranked (g (q.seed "newCriterionRandomSeed")) = .ok ref ∧ ref ∈ s.crit ∧
+      valuesRange s.all ref = .ok rg ∧
+      r.range = scaleEqually rg (q.num "newCriterionScaling" (Num.ofConst Facts.defaultConcealmentScaling)) := by
+  obtain ⟨ranked, ref, rg, _, _, _, _, hrank, href, hrg, hrange, _⟩ := concealment_reads_e2e hf
+  subst hfirst
+  exact ⟨ranked, ref, rg, hrank, href,
+    (BiasA.rankAsc_perm hrank).subset (reference_criterion_is_an_existing_criterion href), hrg, hrange⟩
+
+/-! ### mixing -/
+
+/-- **Every mixing entry of a response that carries a report is one `CriteriaMixing.Apply` with `original` = the
+    request's state and `current` = the state the entry received.** -/
+theorem fired_mixing_is_one_apply {r : Option (MixReport α)} (h : decideWith exp o req g = .ok resp)
+    (hi : resp.biases[i]? = some ⟨name, prob, some (.mixing r)⟩) :
+    ∃ params chosen q s s',
+      E2EBFired exp g req resp params chosen i ⟨name, prob, .flat q⟩ (.mixing r) s s' ∧
+      name = Facts.biasMixing ∧
+      mixing choquetEpsOf params s q (g (q.seed "newCriterionRandomSeed")) (g (q.seed "randomSeed")) = .ok (s', r) := by
+  obtain ⟨params, chosen, props, s, s', hf⟩ := e2eb_fired h hi
+  obtain ⟨hn, q, hp, ha⟩ := e2eb_fired_mixing hf
+  dsimp only at hn hp
+  subst hp
+  exact ⟨params, chosen, q, s, s', hf, hn, ha⟩
+
+theorem fired_mixing_apply {r : Option (MixReport α)}
+    (hf : E2EBFired exp g req resp params chosen i ⟨name, prob, .flat q⟩ (.mixing r) s s') :
+    mixing choquetEpsOf params s q (g (q.seed "newCriterionRandomSeed")) (g (q.seed "randomSeed")) = .ok (s', r) := by
+  obtain ⟨_, q', hp, ha⟩ := e2eb_fired_mixing hf
+  dsimp only at hp
+  cases hp
+  exact ha
+
+/-- `mixing_is_a_noop_below_two_criteria`, end to end: with fewer than two criteria RECEIVED (however many the
+    request declared) the entry hands on the state it received and reports nothing -/
+theorem mixing_is_a_noop_below_two_criteria_e2e {r : Option (MixReport α)}
+    (hf : E2EBFired exp g req resp params chosen i ⟨name, prob, .flat q⟩ (.mixing r) s s')
+    (hlen : s.crit.length < 2) : s' = s ∧ r = none := by
+  have h := fired_mixing_apply hf
+  rw [mixing_is_a_noop_below_two_criteria _ _ _ _ _ _ hlen] at h
+  simp only [Except.ok.injEq, Prod.mk.injEq] at h
+  exact ⟨h.1.symm, h.2.symm⟩
+
+/-- **what a fired mixing (two or more criteria received) reads from the request's state and what from the state
+    it received** (`e2eb_mixingCore_sources`); `u1`, `u2` are the first two numbers of the `randomSeed` stream -/
+theorem mixing_reads_e2e {r : Option (MixReport α)}
+    (hf : E2EBFired exp g req resp params chosen i ⟨name, prob, .flat q⟩ (.mixing r) s s')
+    (hlen : 2 ≤ s.crit.length) :
+    ∃ (ρ u1 u2 : α) (gl : Draws α) (mr : MixReport α) (c1 c2 ref : Crit α) (kind : RefKind)
+      (ranked : List (WCrit α)) (target : α × α) (newAlts : List (Alt α)) (g' : Draws α),
+      r = some mr ∧ ρ = q.num "mixingRatio" (Num.ofConst Facts.defaultMixingRatio) ∧
+      g (q.seed "randomSeed") = u1 :: u2 :: gl ∧
+      -- from the REQUEST's state
+      critAt params.crit (mixIndices params.crit.length u1 u2).1 = .ok c1 ∧
+      critAt params.crit (mixIndices params.crit.length u1 u2).2 = .ok c2 ∧
+      refForParams q = .ok kind ∧ rankAsc choquetEpsOf params = .ok ranked ∧
+      refProvide kind q ranked (g (q.seed "newCriterionRandomSeed")) = .ok ref ∧
+      groundZeroRange params.all ref = .ok target ∧
+      rescaleCriterion c1 params.all target = .ok mr.c1.values ∧
+      rescaleCriterion c2 params.all target = .ok mr.c2.values ∧
+      mixValues ρ mr.c1.values mr.c2.values = .ok mr.new.values ∧
+      mr.c1.id = c1.id ∧ mr.c2.id = c2.id ∧ mr.new.id = "__" ++ c1.id ++ "+" ++ c2.id ++ "__" ∧
+      params.all.mapM (fun a => a.withCrit mr.new.id ((mr.new.values.get? a.id).getD Num.zero)) = .ok newAlts ∧
+      -- from the state RECEIVED
+      onAdded s.mp ⟨mr.new.id, Facts.critGain, some target⟩ ref gl = .ok (mr.addition, g') ∧
+      mergeParams s.mp mr.addition = .ok s'.mp ∧
+      updateAlts s.nc newAlts = .ok s'.nc ∧ updateAlts s.co newAlts = .ok s'.co ∧
+      critsAdd s.crit ⟨mr.new.id, Facts.critGain, some target⟩ = .ok s'.crit := by
+  have h := fired_mixing_apply hf
+  unfold mixing at h
+  rw [if_neg (by omega)] at h
+  dsimp only at h
+  split at h
+  · simp [throw, throwThe, MonadExceptOf.throw] at h
+  · obtain ⟨d1, hd1, h⟩ := bind_eq_ok.mp h
+    obtain ⟨d2, hd2, h⟩ := bind_eq_ok.mp h
+    split at h
+    · simp [throw, throwThe, MonadExceptOf.throw] at h
+    · have hg : g (q.seed "randomSeed") = d1.1 :: d2.1 :: d2.2 := by
+        cases hgs : g (q.seed "randomSeed") with
+        | nil => rw [hgs] at hd1; simp [draw, throw, throwThe, MonadExceptOf.throw] at hd1
+        | cons x xs =>
+          rw [hgs] at hd1
+          simp only [draw, pure, Except.pure, Except.ok.injEq] at hd1
+          subst hd1
+          cases xs with
+          | nil => simp [draw, throw, throwThe, MonadExceptOf.throw] at hd2
+          | cons y ys =>
+            simp only [draw, pure, Except.pure, Except.ok.injEq] at hd2
+            subst hd2
+            rfl
+      obtain ⟨mr, c1, c2, ref, kind, ranked, target, newAlts, g', hr, rest⟩ := e2eb_mixingCore_sources h
+      exact ⟨_, d1.1, d2.1, d2.2, mr, c1, c2, ref, kind, ranked, target, newAlts, g', hr, rfl, hg, rest⟩
+
+/-- `mixing_appends_one_gain_criterion`, end to end — the full statement of the isolated theorem, with its two
+    states instantiated: one gain criterion `__c₁+c₂__` is appended to the criteria RECEIVED, with an id none of them
+    has; `c₁`, `c₂` are criteria of the REQUEST; the split is the one received; every mixed value is
+    `ρ·c₁ + (1−ρ)·c₂` of the reported components; and every alternative handed on is an alternative OF THE REQUEST'S
+    STATE (`params`) with the new value appended — not an alternative received. -/
+theorem mixing_appends_one_gain_criterion_e2e {r : Option (MixReport α)}
+    (hf : E2EBFired exp g req resp params chosen i ⟨name, prob, .flat q⟩ (.mixing r) s s')
+    (hlen : 2 ≤ s.crit.length) :
+    ∃ mr : MixReport α, r = some mr ∧
+      (∃ c : Crit α, s'.crit = s.crit ++ [c] ∧ c.id = mr.new.id ∧ c.type = "gain") ∧
+      (∃ c1 ∈ params.crit, ∃ c2 ∈ params.crit, mr.c1.id = c1.id ∧ mr.c2.id = c2.id ∧
+          mr.new.id = "__" ++ c1.id ++ "+" ++ c2.id ++ "__") ∧
+      (∀ x ∈ s.crit, x.id ≠ mr.new.id) ∧
+      s'.co.map (·.id) = s.co.map (·.id) ∧ s'.nc.map (·.id) = s.nc.map (·.id) ∧
+      (∀ a' ∈ s'.co ++ s'.nc, ∃ a ∈ params.co ++ params.nc, ∃ v,
+          a'.id = a.id ∧ a'.vals = a.vals ++ [(mr.new.id, v)] ∧ a.vals.has mr.new.id = false) ∧
+      (∀ am ∈ mr.new.values, ∃ x y, (am.1, x) ∈ mr.c1.values ∧ mr.c2.values.get? am.1 = some y ∧
+          am.2 = mixValue (q.num "mixingRatio" (Num.ofConst Facts.defaultMixingRatio)) x y) :=
+  mixing_appends_one_gain_criterion hlen (fired_mixing_apply hf)
+
+/-- PARTIAL.  Full statement (the property's "leave all existing values untouched", for a mixing at any
+    position): every alternative handed on is an alternative RECEIVED with exactly the mixed value appended.  That
+    is FALSE in general — the alternatives are rebuilt from the request's state, so value changes of earlier biases
+    are lost and criteria added or omitted earlier disappear / reappear in the values (registered finding
+    `mixing-after-state-change`; `mixing_appends_one_gain_criterion_e2e` says what holds instead).  Proved: it
+    holds when the entry received the request's state (no earlier bias fired, or none changed the state). -/
+theorem mixing_keeps_existing_values_partial {r : Option (MixReport α)}
+    (hf : E2EBFired exp g req resp params chosen i ⟨name, prob, .flat q⟩ (.mixing r) s s')
+    (hlen : 2 ≤ s.crit.length) (hfirst : s = params) :
+    ∃ mr : MixReport α, r = some mr ∧
+      ∀ a' ∈ s'.co ++ s'.nc, ∃ a ∈ s.co ++ s.nc, ∃ v,
+        a'.id = a.id ∧ a'.vals = a.vals ++ [(mr.new.id, v)] ∧ a.vals.has mr.new.id = false := by
+  obtain ⟨mr, hr, _, _, _, _, _, hal, _⟩ := mixing_appends_one_gain_criterion_e2e hf hlen
+  exact ⟨mr, hr, hfirst ▸ hal⟩
+
+/-- PARTIAL.  Full statement: the two mixed criteria and the reference criterion are criteria RECEIVED.  False in
+    general (they are taken from the request's criteria: an omitted criterion may be mixed — same finding).
+    Proved: they are criteria of the request; and criteria received when the criteria received are the request's. -/
+theorem mixing_mixes_existing_criteria_partial {r : Option (MixReport α)}
+    (hf : E2EBFired exp g req resp params chosen i ⟨name, prob, .flat q⟩ (.mixing r) s s')
+    (hlen : 2 ≤ s.crit.length) :
+    ∃ mr c1 c2 ref, r = some mr ∧ mr.c1.id = c1.id ∧ mr.c2.id = c2.id ∧
+      c1 ∈ params.crit ∧ c2 ∈ params.crit ∧ ref ∈ params.crit ∧
+      (s.crit = params.crit → c1 ∈ s.crit ∧ c2 ∈ s.crit ∧ ref ∈ s.crit) := by
+  obtain ⟨_, u1, u2, _, mr, c1, c2, ref, kind, ranked, _, _, _, hr, _, _, hc1, hc2, hkind, hrank, href, _, _, _, _,
+    e1, e2, _⟩ := mixing_reads_e2e hf hlen
+  have hmem : ∀ {idx : Int} {c : Crit α}, critAt params.crit idx = .ok c → c ∈ params.crit := by
+    intro idx c h
+    unfold critAt at h
+    split at h
+    · simp [throw, throwThe, MonadExceptOf.throw] at h
+    · split at h
+      · rename_i x hx
+        simp only [pure, Except.pure, Except.ok.injEq] at h
+        subst h
+        exact List.mem_of_getElem? hx
+      · simp [throw, throwThe, MonadExceptOf.throw] at h
+  have hrefc : refCriterion q ranked (g (q.seed "newCriterionRandomSeed")) = .ok ref := by
+    unfold refCriterion
+    rw [hkind]
+    exact href
+  have hrefm : ref ∈ params.crit :=
+    (BiasA.rankAsc_perm hrank).subset (reference_criterion_is_an_existing_criterion hrefc)
+  exact ⟨mr, c1, c2, ref, hr, e1, e2, hmem hc1, hmem hc2, hrefm,
+    fun hsame => ⟨hsame ▸ hmem hc1, hsame ▸ hmem hc2, hsame ▸ hrefm⟩⟩
+
+end e2e
+
+/-! ### exact arithmetic, end to end -/
+
+section e2eRat
+variable {exp : Rat → Rat} {o : List (WCrit Rat) → List (WCrit Rat)} {req : Request Rat} {g : Int → Draws Rat}
+  {resp : Response Rat} {params s s' : DMP Rat} {chosen : List (Chosen Rat (BProps Rat))} {i : Nat}
+  {name : String} {prob : Rat} {q : Props Rat}
+
+/-- `concealed_values_lie_in_the_scaled_range`, end to end: every concealed value lies in the reported range of the
+    new criterion — the range of the reference criterion OVER THE REQUEST'S ALTERNATIVES, scaled — when no bounding
+    is configured, the `randomSeed` stream lies in `[0,1)` and the range is ordered -/
+theorem concealed_values_lie_in_the_scaled_range_e2e {r : ConcealReport Rat}
+    (hf : E2EBFired exp g req resp params chosen i ⟨name, prob, .flat q⟩ (.conceal r) s s')
+    (hg : ∀ u ∈ g (q.seed "randomSeed"), 0 ≤ u ∧ u < 1) (hr : r.range.1 ≤ r.range.2)
+    (hoff : ∀ b, boundingOfProps q = .ok b → ¬ (0 : Rat) < b.scaling ∧ b.nonNeg = false) :
+    ∀ iv ∈ r.values, r.range.1 ≤ iv.2 ∧ iv.2 ≤ r.range.2 :=
+  concealed_values_lie_in_the_scaled_range (fired_concealment_apply hf) hg hr hoff
+
+/-- `concealed_values_lie_in_the_bounded_range`, end to end -/
+theorem concealed_values_lie_in_the_bounded_range_e2e {r : ConcealReport Rat}
+    (hf : E2EBFired exp g req resp params chosen i ⟨name, prob, .flat q⟩ (.conceal r) s s') :
+    ∃ b, boundingOfProps q = .ok b ∧
+      ((0 : Rat) < b.scaling → (allowedRange b r.range).1 ≤ (allowedRange b r.range).2 →
+        ∀ iv ∈ r.values, (allowedRange b r.range).1 ≤ iv.2 ∧ iv.2 ≤ (allowedRange b r.range).2) :=
+  concealed_values_lie_in_the_bounded_range (fired_concealment_apply hf)
+
+/-- the parameter clause between two states of the same method: `OnCriterionAdded` asked on `mp0`, the addition
+    merged into `mp` (same method) ⇒ `paramsExtended mp mp' [new id]`, for the five methods whose `Merge`
+    accepts an addition (Go maps have unique keys: hypotheses) -/
+theorem parameters_are_extended_between_states {mp0 mp mp' : MParams Rat} (ht : e2eTag mp0 = e2eTag mp)
+    {crit ref : Crit Rat} {d d' : Draws Rat} {add : Addition Rat}
+    (h1 : onAdded mp0 crit ref d = .ok (add, d')) (h2 : mergeParams mp add = .ok mp') :
+    (∀ wc, mp = .ws wc → Spec.C18.paramsExtended mp mp' [crit.id] = true) ∧
+    (∀ ec dist, mp = .electre ec dist → (ec.map (·.1)).Nodup → Spec.C18.paramsExtended mp mp' [crit.id] = true) ∧
+    (∀ w cur seed rnd dr, mp = .majority w cur seed rnd dr → (w.map (·.1)).Nodup →
+      Spec.C18.paramsExtended mp mp' [crit.id] = true) ∧
+    (∀ fn lv seed w rnd, mp = .aspect fn lv seed w rnd → (w.map (·.1)).Nodup →
+      (∀ ts, lv = .thresholds ts → ∀ t ∈ ts, (t.map (·.1)).Nodup) →
+      Spec.C18.paramsExtended mp mp' [crit.id] = true) ∧
+    (∀ fn lv seed cur rnd, mp = .satisf fn lv seed cur rnd →
+      (∀ ts, lv = .thresholds ts → ∀ t ∈ ts, (t.map (·.1)).Nodup) →
+      Spec.C18.paramsExtended mp mp' [crit.id] = true) := by
+  obtain ⟨p1, p2, p3, p4, p5⟩ := parameters_are_extended_for_the_new_criterion
+  refine ⟨?_, ?_, ?_, ?_, ?_⟩
+  · intro wc hmp
+    obtain ⟨wc0, h0⟩ := e2eb_same_method_ws ht hmp
+    subst hmp h0
+    exact p1 h1 h2
+  · intro ec dist hmp hnd
+    obtain ⟨ec0, dist0, h0⟩ := e2eb_same_method_electre ht hmp
+    subst hmp h0
+    exact p2 hnd h1 h2
+  · intro w cur seed rnd dr hmp hnd
+    obtain ⟨w0, cur0, seed0, rnd0, dr0, h0⟩ := e2eb_same_method_majority ht hmp
+    subst hmp h0
+    exact p3 hnd h1 h2
+  · intro fn lv seed w rnd hmp hnd hndl
+    obtain ⟨fn0, lv0, seed0, w0, rnd0, h0⟩ := e2eb_same_method_aspect ht hmp
+    subst hmp h0
+    exact p4 hnd hndl h1 h2
+  · intro fn lv seed cur rnd hmp hndl
+    obtain ⟨fn0, lv0, seed0, cur0, rnd0, h0⟩ := e2eb_same_method_satisf ht hmp
+    subst hmp h0
+    exact p5 hndl h1 h2
+
+/-- `parameters_are_extended_for_the_new_criterion`, end to end, concealment: the parameters handed on extend the
+    parameters RECEIVED by exactly one entry for the concealed criterion, every entry received untouched — although
+    the new entry was computed by `OnCriterionAdded` on the REQUEST's parameters (weighted sum, ELECTRE III,
+    majority, aspect elimination, satisfaction; OWA and Choquet reject every addition: registered findings) -/
+theorem concealment_extends_the_parameters_received {r : ConcealReport Rat}
+    (hf : E2EBFired exp g req resp params chosen i ⟨name, prob, .flat q⟩ (.conceal r) s s') :
+    (∀ wc, s.mp = .ws wc → Spec.C18.paramsExtended s.mp s'.mp [r.id] = true) ∧
+    (∀ ec dist, s.mp = .electre ec dist → (ec.map (·.1)).Nodup → Spec.C18.paramsExtended s.mp s'.mp [r.id] = true) ∧
+    (∀ w cur seed rnd dr, s.mp = .majority w cur seed rnd dr → (w.map (·.1)).Nodup →
+      Spec.C18.paramsExtended s.mp s'.mp [r.id] = true) ∧
+    (∀ fn lv seed w rnd, s.mp = .aspect fn lv seed w rnd → (w.map (·.1)).Nodup →
+      (∀ ts, lv = .thresholds ts → ∀ t ∈ ts, (t.map (·.1)).Nodup) →
+      Spec.C18.paramsExtended s.mp s'.mp [r.id] = true) ∧
+    (∀ fn lv seed cur rnd, s.mp = .satisf fn lv seed cur rnd →
+      (∀ ts, lv = .thresholds ts → ∀ t ∈ ts, (t.map (·.1)).Nodup) →
+      Spec.C18.paramsExtended s.mp s'.mp [r.id] = true) := by
+  obtain ⟨_, ref, _, _, _, g', g'', _, _, _, _, hadd, _, _, _, _, _, _, hm, _⟩ := concealment_reads_e2e hf
+  obtain ⟨mp, hmp, _, _, _, _, ht, _⟩ := e2eb_fired_frame hf
+  obtain ⟨_, mp', hmp', hpp, _⟩ := decidePrepare_ok hf.prepared
+  have hpm : params.mp = mp := by
+    rw [hmp] at hmp'
+    cases hmp'
+    exact (e2e_prepareParams_ok hpp).2.2.2.2
+  have := parameters_are_extended_between_states (mp0 := params.mp) (mp := s.mp) (by rw [ht, hpm]) hadd hm
+  exact this
+
+/-- the new weight of a concealed criterion is a seeded fraction of the weight the reference criterion has IN THE
+    REQUEST's parameters (not in the parameters received): for `u` the listener's draw in `[0,1)` -/
+theorem concealed_weight_is_a_fraction_of_the_request_reference_weight {r : ConcealReport Rat}
+    (hf : E2EBFired exp g req resp params chosen i ⟨name, prob, .flat q⟩ (.conceal r) s s') :
+    ∃ (ref : Crit Rat) (g' g'' : Draws Rat),
+      onAdded params.mp ⟨r.id, r.type, some r.range⟩ ref g' = .ok (r.addition, g'') ∧
+      ∀ u d, g' = u :: d → (Spec.C18.weightOf params.mp ref.id).isSome → 0 ≤ u → u < 1 →
+        Spec.C18.weightClause params.mp r.addition ref.id r.id = true := by
+  obtain ⟨_, ref, _, _, _, g', g'', _, _, _, _, hadd, _⟩ := concealment_reads_e2e hf
+  refine ⟨ref, g', g'', hadd, ?_⟩
+  intro u d hg hw h0 h1
+  rw [hg] at hadd
+  exact added_weight_is_a_seeded_fraction_of_the_reference_weight hadd hw h0 h1
+
+/-- `parameters_are_extended_for_the_new_criterion`, end to end, mixing (two or more criteria received): both the
+    listener's question and the merge use the parameters RECEIVED -/
+theorem mixing_extends_the_parameters_received {r : Option (MixReport Rat)}
+    (hf : E2EBFired exp g req resp params chosen i ⟨name, prob, .flat q⟩ (.mixing r) s s')
+    (hlen : 2 ≤ s.crit.length) :
+    ∃ mr, r = some mr ∧
+    (∀ wc, s.mp = .ws wc → Spec.C18.paramsExtended s.mp s'.mp [mr.new.id] = true) ∧
+    (∀ ec dist, s.mp = .electre ec dist → (ec.map (·.1)).Nodup →
+      Spec.C18.paramsExtended s.mp s'.mp [mr.new.id] = true) ∧
+    (∀ w cur seed rnd dr, s.mp = .majority w cur seed rnd dr → (w.map (·.1)).Nodup →
+      Spec.C18.paramsExtended s.mp s'.mp [mr.new.id] = true) ∧
+    (∀ fn lv seed w rnd, s.mp = .aspect fn lv seed w rnd → (w.map (·.1)).Nodup →
+      (∀ ts, lv = .thresholds ts → ∀ t ∈ ts, (t.map (·.1)).Nodup) →
+      Spec.C18.paramsExtended s.mp s'.mp [mr.new.id] = true) ∧
+    (∀ fn lv seed cur rnd, s.mp = .satisf fn lv seed cur rnd →
+      (∀ ts, lv = .thresholds ts → ∀ t ∈ ts, (t.map (·.1)).Nodup) →
+      Spec.C18.paramsExtended s.mp s'.mp [mr.new.id] = true) := by
+  obtain ⟨_, _, _, _, mr, _, _, ref, _, _, target, _, g', hr, _, _, _, _, _, _, _, _, _, _, _, _, _, _, _, hadd, hm,
+    _⟩ := mixing_reads_e2e hf hlen
+  exact ⟨mr, hr, parameters_are_extended_between_states (mp0 := s.mp) (mp := s.mp) rfl hadd hm⟩
+
+end e2eRat
+
+/-! ### the hypotheses are satisfiable: requests in which the concealment / mixing is the second fired bias
+
+`List.mergeSort` (ranking of the criteria, sorting of the alternatives by id) reduces in the kernel only on
+singletons, hence the one-criterion one-alternative requests `e2ebExReq1…` (Lemmas/E2EBiasesExample.lean). -/
+
+/-- fatigue fires, an entry does not fire, then the concealment fires on the state the fatigue handed on (which is
+    not the request's state); the hypotheses of `concealed_values_lie_in_the_scaled_range_e2e` hold -/
+example : ∃ resp name prob r n0 p0 r0 params chosen q s s',
+    Rdm.decide id (e2ebExReq1 [e2ebExFatigue, e2ebExSkipped, e2ebExConceal]) e2ebExSeeds = .ok resp ∧
+    resp.biases[2]? = some ⟨name, prob, some (.conceal r)⟩ ∧ resp.biases[0]? = some ⟨n0, p0, some r0⟩ ∧
+    E2EBFired id (genOf e2ebExSeeds) (e2ebExReq1 [e2ebExFatigue, e2ebExSkipped, e2ebExConceal]) resp params chosen 2
+      ⟨name, prob, .flat q⟩ (.conceal r) s s' ∧
+    s ≠ params ∧ (∀ iv ∈ r.values, r.range.1 ≤ iv.2 ∧ iv.2 ≤ r.range.2) := by
+  obtain ⟨resp, name, prob, rp, hr, h2, hk, n0, p0, r0, h0⟩ := e2eb_firedWith
+    (r := Rdm.decide id (e2ebExReq1 [e2ebExFatigue, e2ebExSkipped, e2ebExConceal]) e2ebExSeeds)
+    (j := 0) (i := 2) (k := fun r => match r with | .conceal c => decide (c.range.1 ≤ c.range.2) | _ => false)
+    (by decide +kernel)
+  cases rp with
+  | conceal r =>
+    simp only [decide_eq_true_eq] at hk
+    obtain ⟨params, chosen, q, s, s', hf, _, _⟩ := fired_concealment_is_one_apply hr h2
+    have hb := e2eb_fired_chosenAt hf
+    have hb' : e2ebChosenAt (e2ebExReq1 [e2ebExFatigue, e2ebExSkipped, e2ebExConceal]) 2 =
+        some ⟨Facts.biasConcealment, 1, .flat {}⟩ := rfl
+    rw [hb'] at hb
+    simp only [Option.some.injEq, Chosen.mk.injEq, BProps.flat.injEq] at hb
+    obtain ⟨rfl, rfl, rfl⟩ := hb
+    have hne : s ≠ params := by
+      intro e
+      have hs := e2eb_received_sat hf (k := fun s =>
+        decide (s.co.map (·.vals) = [[("c0", 33 / 32)]])) (by decide +kernel)
+      simp only [decide_eq_true_eq] at hs
+      have hp := hf.prepared
+      have hp' : prepare (e2ebExReq1 [e2ebExFatigue, e2ebExSkipped, e2ebExConceal]) =
+          .ok (⟨[], [⟨"a", [("c0", 1)]⟩], [e2eExC0], .ws [⟨e2eExC0, 1⟩]⟩,
+           [⟨Facts.biasFatigue, 1, e2ebExFatigue.props⟩, ⟨Facts.biasReversal, 1 / 4, e2ebExSkipped.props⟩,
+            ⟨Facts.biasConcealment, 1, e2ebExConceal.props⟩]) := rfl
+      rw [hp'] at hp
+      cases hp
+      rw [e] at hs
+      revert hs
+      decide +kernel
+    have hoff : ∀ b, boundingOfProps ({} : Props Rat) = .ok b → ¬ (0 : Rat) < b.scaling ∧ b.nonNeg = false := by
+      intro b hb
+      unfold boundingOfProps at hb
+      dsimp only at hb
+      split at hb
+      · simp [throw, throwThe, MonadExceptOf.throw] at hb
+      · simp only [pure, Except.pure, Except.ok.injEq] at hb
+        subst hb
+        exact ⟨by decide +kernel, by decide +kernel⟩
+    exact ⟨resp, _, _, r, n0, p0, r0, params, chosen, _, s, s', hr, h2, h0, hf, hne,
+      concealed_values_lie_in_the_scaled_range_e2e hf (e2eb_exSeeds_unit _) hk hoff⟩
+  | _ => cases hk
+
+/-- a concealment fires (one criterion becomes two), an entry does not fire, then the mixing fires with two
+    criteria received: the hypotheses of `mixing_reads_e2e` / `mixing_appends_one_gain_criterion_e2e` hold.  The
+    request declares ONE criterion, so the mixing mixes `c0` with itself (`__c0+c0__`) and hands on the request's
+    alternative without the concealed value — the registered finding, visible in the theorem's conclusion. -/
+example : ∃ resp name prob mr n0 p0 r0 params chosen q s s',
+    Rdm.decide id (e2ebExReq1Maj [e2ebExConceal, e2ebExSkipped, e2ebExMixing]) e2ebExSeeds = .ok resp ∧
+    resp.biases[2]? = some ⟨name, prob, some (.mixing (some mr))⟩ ∧ resp.biases[0]? = some ⟨n0, p0, some r0⟩ ∧
+    E2EBFired id (genOf e2ebExSeeds) (e2ebExReq1Maj [e2ebExConceal, e2ebExSkipped, e2ebExMixing]) resp params chosen 2
+      ⟨name, prob, .flat q⟩ (.mixing (some mr)) s s' ∧
+    2 ≤ s.crit.length ∧ params.crit.length = 1 ∧ mr.new.id = "__c0+c0__" := by
+  obtain ⟨resp, name, prob, rp, hr, h2, hk, n0, p0, r0, h0⟩ := e2eb_firedWith
+    (r := Rdm.decide id (e2ebExReq1Maj [e2ebExConceal, e2ebExSkipped, e2ebExMixing]) e2ebExSeeds)
+    (j := 0) (i := 2) (k := fun r => match r with | .mixing (some m) => m.new.id == "__c0+c0__" | _ => false)
+    (by decide +kernel)
+  cases rp with
+  | mixing om =>
+    cases om with
+    | none => cases hk
+    | some mr =>
+      obtain ⟨params, chosen, q, s, s', hf, _, _⟩ := fired_mixing_is_one_apply hr h2
+      have hs := e2eb_received_sat hf (k := fun s => decide (2 ≤ s.crit.length)) (by decide +kernel)
+      simp only [decide_eq_true_eq] at hs
+      have hp := hf.prepared
+      have hp' : prepare (e2ebExReq1Maj [e2ebExConceal, e2ebExSkipped, e2ebExMixing]) =
+          .ok (⟨[], [⟨"a", [("c0", 1)]⟩], [e2eExC0], .majority [("c0", 1)] "" 11 false ""⟩,
+           [⟨Facts.biasConcealment, 1, e2ebExConceal.props⟩, ⟨Facts.biasReversal, 1 / 4, e2ebExSkipped.props⟩,
+            ⟨Facts.biasMixing, 1, e2ebExMixing.props⟩]) := rfl
+      rw [hp'] at hp
+      cases hp
+      exact ⟨resp, _, _, mr, n0, p0, r0, _, _, q, s, s', hr, h2, h0, hf, hs, rfl, by simpa using hk⟩
+  | _ => cases hk
+
+/-- the hypothesis `s = params` of the `…_partial` theorems holds of the first fired entry of every response -/
+example {α : Type} [Num α] {exp : α → α} {g : Int → Draws α} {req : Request α} {resp : Response α}
+    {params s s' : DMP α} {chosen : List (Chosen α (BProps α))} {i : Nat} {b : Chosen α (BProps α)}
+    {rep : Report α} (hf : E2EBFired exp g req resp params chosen i b rep s s')
+    (hnone : ∀ j < i, ∀ x, resp.biases[j]? = some x → x.report = none) : s = params :=
+  e2eb_fired_first hf hnone
 
 end Rdm.Props.C18
